@@ -381,6 +381,21 @@ impl AsServer<'_> {
     }
 }
 
+/// Verification-only facade (forwarding only).
+#[cfg(libp2p_verif)]
+pub mod verif {
+    use super::*;
+
+    /// Forwards to the private `AsServer::filter_valid_addrs`.
+    pub fn filter_valid_addrs(
+        peer: PeerId,
+        demanded: Vec<Multiaddr>,
+        observed_remote_at: &Multiaddr,
+    ) -> Vec<Multiaddr> {
+        AsServer::filter_valid_addrs(peer, demanded, observed_remote_at)
+    }
+}
+
 #[cfg(test)]
 mod test {
     use std::net::Ipv4Addr;
